@@ -1,6 +1,8 @@
 package scen
 
 import (
+	"time"
+
 	"opsim/core"
 )
 
@@ -64,4 +66,46 @@ func init() {
 		Rule: "as C13 plus executor-change plans over {fresh / known operator} x {fresh / used consensus key} x executor lists and malformed plans, registered at heights before, at and after other validator operations and under every max-validator setting, with node restarts between registration and the plan height; oracle: at the end of the plan block the engine set is exactly the plan's validator, state agrees, executors are the plan's list and block processing does not fail; malformed registrations fail without side effects; non-trivial = >=1 plan applied",
 		QuickRuns: 1000, QuickSecs: 70, ThoroughRuns: 40000, ThoroughSecs: 700,
 		RequiredProbes: []string{"plan.applied", "plan.malformed-rejected"}})
+}
+
+func init() {
+	c07 := &l2Profile{Prop: "C07", Blocks: [2]int{0, 8}, MaxTx: 4, Hooks: 70, BadRcpt: 30,
+		W: map[string]int{"relay": 50, "relaybatch": 5, "withdraw": 10, "send": 15, "params": 6}}
+	core.Register(&core.Scenario{ID: "C07", Level: "fault_enumeration", Run: runC07(c07), Components: l2Components,
+		Assumptions: []string{"outer tx signatures are not verified; the signer is the declared signer field", "hook payloads carry real secp256k1 signatures checked by the real SDK decorators", "module accounts exist from genesis (DESIGN: observations outside the listed properties)"},
+		Rule: "per run: a seeded warm-up history, then 1-3 deposits drawn from recipient {valid, fresh, malformed, blocked module account} x amount {0, typical, 2^63, 2^64-1, 2^64} x payload {none, garbage, well-signed succeeding, well-signed failing at message k, bad signature, future sequence, 150-transfer gas hog, unroutable message}; each deposit is executed fault-free on a fork of the world while the calls through the bank / account-keeper seams and the hook-target message server are recorded, then re-executed from the same state once per (call index x {error, panic}); an evaluation is one faulted execution whose fault fired; distinct = (deposit class, call site, fault kind); non-trivial = at least 2 fault variants executed",
+		QuickRuns: 500, QuickSecs: 80, ThoroughRuns: 20000, ThoroughSecs: 800,
+		RequiredProbes: []string{"c07.site.contained.MintCoins.err", "c07.site.contained.MintCoins.panic", "c07.site.contained.SendCoinsFromModuleToAccount.panic", "c07.site.contained.MsgSend.panic", "c07.site.outside.BurnCoins.err", "c07.gas-bound-checked"}})
+}
+
+func init() {
+	// C12: authorisation on both chains; each run picks one chain.
+	c12l1 := &l1Profile{Prop: "C12", Blocks: [2]int{12, 50}, MaxTx: 5, Crash: 4, Periods: []time.Duration{time.Second, 10 * time.Second, time.Hour}, RegFee: true,
+		W:       map[string]int{"create": 8, "deposit": 4, "propose": 14, "delete": 12, "claim": 4, "updProposer": 16, "updChallenger": 16, "batchInfo": 10, "metadata": 8, "oracleCfg": 8, "params": 6, "recordBatch": 2},
+		NonTriv: func(w *l1World) bool { return w.succ["updProposer"]+w.succ["updChallenger"] >= 2 }}
+	c12l2 := &l2Profile{Prop: "C12", Blocks: [2]int{12, 50}, MaxTx: 5, Crash: 4, Hooks: 5, BadRcpt: 5,
+		W:       map[string]int{"relay": 12, "withdraw": 3, "send": 3, "addval": 12, "rmval": 8, "params": 18, "spend": 8, "bridgeinfo": 14, "exec": 22},
+		NonTriv: func(w *l2World) bool { return w.succ["params"]+w.succ["exec"] >= 2 }}
+	l1run, l2run := runL1(c12l1), runL2(c12l2)
+	comp := map[string]string{}
+	for k, v := range l1Components {
+		comp["L1: "+k] = v
+	}
+	for k, v := range l2Components {
+		comp["L2: "+k] = v
+	}
+	core.Register(&core.Scenario{ID: "C12", Level: "exploration", Components: comp,
+		Run: func(r *core.Run) *core.Violation {
+			if r.Intn(2) == 0 {
+				r.Logf("C12 on L1")
+				return l1run(r)
+			}
+			r.Logf("C12 on L2")
+			return l2run(r)
+		},
+		Assumptions: []string{"the authenticated signer of a message is its annotated signer field (no outer signature verification)", "single block proposer", "MsgUpdateOracle's executor / oracle-flag guard is exercised by the C15 scenario"},
+		Rule: "every permissioned message type of both modules is sent by signers drawn from current and past role holders, governance / module authority, the admin and strangers, in states reached by role rotations, parameter and executor-list changes (same block and across blocks), including MsgExecuteMessages batches mixing authority-signed and foreign-signed inner messages with failing tails and MsgSetBridgeInfo re-pointing attempts; oracle: access table written from the property text (soundness and, for valid arguments, completeness), rejected messages change nothing, batches are all-or-nothing; non-trivial = >=2 successful role / parameter changes",
+		QuickRuns: 1200, QuickSecs: 70, ThoroughRuns: 50000, ThoroughSecs: 700,
+		RequiredProbes: []string{"reject.auth.propose", "reject.auth.delete", "reject.auth.update-proposer", "reject.auth.update-challenger", "reject.auth.update-batch-info", "reject.auth.update-metadata", "reject.auth.update-oracle-config", "reject.auth.update-params",
+			"reject.auth.finalize-deposit", "reject.auth.set-bridge-info", "reject.auth.execute-messages", "reject.exec.inner-signer", "reject.bridgeinfo.repoint", "reject.auth.add-validator", "reject.auth.spend-fee-pool"}})
 }
